@@ -90,6 +90,26 @@ SHORT = {
  'C16-6': 'initial covariance propagated as A C A instead of A C A^T',
  'C19-5': 'default transform of ape/rpe is an lru_cached identity that origin=True overwrites in place',
  'C19-6': 'pairs_by_dist starts the path at the world origin (distance pairing depends on absolute position)',
+ 'C03-5': 'so3_Exp series switch at the fixed angle 1e-4 with a first-order series (|q|^2 = 1 + θ²/4: float64 only)',
+ 'C03-6': 'single-transform Act fast path for >= 4096 points uses the rotation without the scale for RxSO3',
+ 'C06-5': 'LieTensor.Act left-aligns the batch dims when the leading dims of the points equal lshape (breaks right-aligned broadcasting)',
+ 'C06-6': 'matrix() caches the identity already viewed for the batch rank of the first caller (wrong rank for later lower-rank calls)',
+ 'C08-5': 'LM reject branch no longer resets self.loss (stale loss returned when the solver raises after a rejected trial)',
+ 'C08-6': 'RobustModel.loss zips kernels with residual blocks (tuple-valued model + one kernel: only the first block counted)',
+ 'C09-5': 'FastTriggs Jacobian-row scales via repeat_interleave(dim=0) (tiled instead of interleaved for residuals with two batch dims)',
+ 'C09-6': 'Triggs.compute_grads: enable_grad narrowed + except RuntimeError -> rho\'\' silently 0 under no_grad (inside GN/LM)',
+ 'C12-5': 'cumprod / cumprod_ re-normalise the quaternion of the result (not the exact product for non-unit quaternions)',
+ 'C12-6': 'negative dim wrapped with the lshape rank instead of the tensor rank (scan along the wrong axis)',
+ 'C14-5': 'compact Q / p spread over the horizon with repeat+view (weights mixed across batch items)',
+ 'C14-6': 'control-increment buffer allocated in the default dtype (float32 round trip inside float64 solves)',
+ 'C15-5': 'systime setter rebinds _t to the caller\'s tensor (clock aliases user tensors / other systems)',
+ 'C15-6': 'NLS Jacobians cached per reference point; cache kept by an argument-less set_refpoint()',
+ 'C17-5': 'knn via torch.cdist (matmul path for > 25 points: float32 cancellation far from the origin)',
+ 'C17-6': 'svdtf reflection test by sign(det(M)) instead of det(U Vh) (wrong for rank-deficient cross-covariances)',
+ 'C18-5': 'pixel2point fills a new_empty buffer that inherits the pixels\' dtype (int64 pixel grid: truncation)',
+ 'C18-6': 'homo2cart clamps |w| at finfo.eps instead of finfo.tiny',
+ 'C20-5': 'ReduceToBason relative decrease divided by the previous loss instead of the current one',
+ 'C20-6': 'ReduceToBason tol test on |loss| (negative losses never stop by tol)',
 }
 rows = ['| change | what it does | run against | quick check |', '|---|---|---|---|']
 names = sorted(d for d in os.listdir(os.path.join(V, 'seeded')) if os.path.isdir(os.path.join(V, 'seeded', d)))
